@@ -27,8 +27,23 @@ func isSingleAtomPremise(premises []ast.Term) bool {
 	if len(premises) != 1 {
 		return false
 	}
-	_, ok := premises[0].(ast.Atom)
-	return ok
+	atom, ok := premises[0].(ast.Atom)
+	if !ok {
+		return false
+	}
+	// The do-transform reads the facts of this atom directly from the store, which
+	// matches constants but does not enforce that a repeated variable has the same
+	// value in both columns; such an atom goes through a hidden relation instead.
+	seen := make(map[ast.Variable]bool)
+	for _, arg := range atom.Args {
+		if v, isVar := arg.(ast.Variable); isVar && v.Symbol != "_" {
+			if seen[v] {
+				return false
+			}
+			seen[v] = true
+		}
+	}
+	return true
 }
 
 // Rewrite transforms each clause of a given layer (stratum) of a program to another one where
